@@ -55,29 +55,63 @@ func checkCopy(r *Run) {
 	}
 	hasNilCase := false
 	defaultPanics := false
-	for _, c := range sw.Body.List {
-		cc := c.(*ast.CaseClause)
-		if cc.List == nil {
-			ast.Inspect(cc, func(n ast.Node) bool {
-				if call, ok := n.(*ast.CallExpr); ok {
-					if id, ok := call.Fun.(*ast.Ident); ok && id.Name == "panic" {
-						defaultPanics = true
+	// the cases of Copy's own switch, and of the switch of every same-package function that a clause of it hands the
+	// value to (the switch may be split over helpers that the default branch tries in turn)
+	var collect func(ts *ast.TypeSwitchStmt, depth int)
+	seenHelpers := map[*ast.FuncDecl]bool{copyFn: true}
+	collect = func(ts *ast.TypeSwitchStmt, depth int) {
+		for _, c := range ts.Body.List {
+			cc := c.(*ast.CaseClause)
+			if cc.List == nil {
+				ast.Inspect(cc, func(n ast.Node) bool {
+					if call, ok := n.(*ast.CallExpr); ok {
+						if id, ok := call.Fun.(*ast.Ident); ok && id.Name == "panic" && depth == 0 {
+							defaultPanics = true
+						}
 					}
+					return true
+				})
+			}
+			for _, te := range cc.List {
+				if tv, ok := info.Types[te]; ok {
+					if tv.IsNil() {
+						hasNilCase = true
+						continue
+					}
+					caseTypes = append(caseTypes, tv.Type)
 				}
-				return true
-			})
-			continue
-		}
-		for _, te := range cc.List {
-			if tv, ok := info.Types[te]; ok {
-				if tv.IsNil() {
-					hasNilCase = true
-					continue
-				}
-				caseTypes = append(caseTypes, tv.Type)
+			}
+			if depth >= 2 {
+				continue
+			}
+			for _, st := range cc.Body {
+				ast.Inspect(st, func(n ast.Node) bool {
+					call, ok := n.(*ast.CallExpr)
+					if !ok {
+						return true
+					}
+					fn := calleeOf(info, call)
+					if fn == nil || fn.Pkg() != cp.Types {
+						return true
+					}
+					hd := decls[declKeyOf(fn)]
+					if hd == nil || hd.Body == nil || seenHelpers[hd] || hd.Recv != nil {
+						return true
+					}
+					seenHelpers[hd] = true
+					ast.Inspect(hd.Body, func(m ast.Node) bool {
+						if inner, ok := m.(*ast.TypeSwitchStmt); ok {
+							collect(inner, depth+1)
+							return false
+						}
+						return true
+					})
+					return true
+				})
 			}
 		}
 	}
+	collect(sw, 0)
 	_ = hasNilCase
 	hasCase := func(t types.Type) bool {
 		for _, c := range caseTypes {
